@@ -617,6 +617,24 @@ func (db *DB) rollbackJournal(ctx context.Context) error {
 	}
 	defer func() { _ = journalFile.Close() }()
 
+	// The page size is only unknown while no page has ever been written to the
+	// database file. A journal found in that state was left by the first
+	// transaction on a new database so there is nothing to copy back, and the
+	// journal reader cannot compute frame counts without a page size.
+	if db.pageSize == 0 {
+		if err := journalFile.Close(); err != nil {
+			return err
+		} else if err := db.os.Remove("ROLLBACKJOURNAL", db.JournalPath()); err != nil {
+			return err
+		}
+		if invalidator := db.store.Invalidator; invalidator != nil {
+			if err := invalidator.InvalidateEntry(db.name + "-journal"); err != nil {
+				return fmt.Errorf("invalidate journal: %w", err)
+			}
+		}
+		return nil
+	}
+
 	dbFile, err := db.os.OpenFile("ROLLBACKJOURNALDB", db.DatabasePath(), os.O_RDWR, 0o666)
 	if err != nil {
 		return err
